@@ -781,7 +781,7 @@ Theorem judge_rel_kind4 : forall rec p1 p2 m n M m' n' M' v v' rest,
   let k := Z.to_nat pos in let isr := negb (isrow =? 0) in
   (if isr then m' = S m /\ n' = n /\ (k < m')%nat /\ submat M' (keep_line m' k) (iota 0 n') = M
    else m' = m /\ n' = S n /\ (k < n')%nat /\ submat M' (iota 0 m') (keep_line n' k) = M) /\
-  line_reducible true m' n' M' isr k = true /\
+  line_reducible true m' n' M' isr k = true /\ is_ternary M' = true /\
   (forall i, In i [V_TU; V_REG; V_GRA; V_COG; V_NET; V_CONET; V_SPT; V_BAL] -> same_at v v' i i = true) /\
   (line_reducible false m' n' M' isr k = true -> same_at v v' V_SPB V_SPB = true) /\
   sp_greedy true m' n' M' = sp_greedy true m n M /\
@@ -798,9 +798,10 @@ Proof.
              else Nat.eqb m' m && Nat.eqb n' (S n) && Nat.ltb k n') &&
             mat_eqb (if isr then submat M' (keep_line m' k) (iota 0 n')
                      else submat M' (iota 0 m') (keep_line n' k)) M &&
-            line_reducible true m' n' M' isr k)%bool eqn:C; cbn [negb] in HJ; [|discriminate].
+            line_reducible true m' n' M' isr k && is_ternary M')%bool eqn:C; cbn [negb] in HJ; [|discriminate].
   destruct (forallb (fun i => same_at v v' i i) [V_TU; V_REG; V_GRA; V_COG; V_NET; V_CONET; V_SPT; V_BAL]) eqn:A;
     cbn [andb] in HJ; [|discriminate].
+  apply andb_true_iff in C. destruct C as [C C4].
   apply andb_true_iff in C. destruct C as [C C3]. apply andb_true_iff in C. destruct C as [C1 C2].
   apply mat_eqb_eq in C2.
   assert (SPB : line_reducible false m' n' M' isr k = true -> same_at v v' V_SPB V_SPB = true).
@@ -910,7 +911,7 @@ Corollary judge_rel_kind4_verdicts : forall rec p1 p2 m n M m' n' M' v v' rest i
   is01 (vget v i) -> is01 (vget v' i) -> vget v i = vget v' i.
 Proof.
   intros rec p1 p2 m n M m' n' M' v v' rest i Hdec HJ Hi D1 D2.
-  destruct (judge_rel_kind4 _ _ _ _ _ _ _ _ _ _ _ _ Hdec HJ) as (isrow & pos & _ & _ & _ & S & _).
+  destruct (judge_rel_kind4 _ _ _ _ _ _ _ _ _ _ _ _ Hdec HJ) as (isrow & pos & _ & _ & _ & _ & S & _).
   apply (same_at_spec v v' i i); [apply S; exact Hi | | exact D1 | exact D2].
   intros ->. unfold V_TU, V_REG, V_GRA, V_COG, V_NET, V_CONET, V_SPT, V_BAL in Hi. cbn [In] in Hi. lia.
 Qed.
